@@ -313,7 +313,7 @@ def run_impl(case, model=None, shared_cf=None):
     before = snap(m)
     pre_copy = copy.deepcopy(m)
     bnds = bounds_of(m)
-    rec = dict(called=False, evs=[], states=[], vars=[])
+    rec = dict(called=False, evs=[], states=[], vars=[], curves=[])
     orig = F.curve_fit
 
     def wrapped(**kwargs):
@@ -322,6 +322,7 @@ def run_impl(case, model=None, shared_cf=None):
         def f2(xx, *args):
             rec["evs"].append([float(a) for a in args])
             out = f(xx, *args)
+            rec["curves"].append(np.array(out, dtype=float))
             # the model object after THIS evaluation (the curve values the optimiser sees are computed from it)
             rec["states"].append([float(m._var), float(m.len_scale), float(m.nugget)] + [float(getattr(m, o)) for o in m.opt_arg]
                                  + [float(a) for a in np.atleast_1d(m.anis)])
@@ -573,6 +574,10 @@ def expected_call(case, m):
     return xd, sigma
 
 
+def has_vf(m, case):
+    return case["cls"].startswith("TPL") or abs(m.var_factor() - 1.0) > 0
+
+
 def fitted_layout(case, impl):
     """names of the parameters handed to the optimiser, in the documented order, and whether anis follows (dim-1 entries)"""
     m = impl["model"]
@@ -646,6 +651,90 @@ def check_call_kwargs(case, impl):
                             "(fitted: %r%s)" % (i_, nme, lo_e, hi_e, rec["lo"][i_], rec["hi"][i_], fitted, " + anis" if fit_anis else "")))
             elif not (rec["lo"][i_] <= rec["p0"][i_] <= rec["hi"][i_]):
                 out.append(("cf-p0", "start value %r of %s outside the bounds [%r, %r] handed to curve_fit" % (rec["p0"][i_], nme, rec["lo"][i_], rec["hi"][i_])))
+    # the start vector follows the documented init_guess semantics for EVERY parameter: an entry of a dict wins, otherwise
+    # "default" (len_scale: mean bin centre * rescale; var, nugget: mean variogram value; opt args / anis: default from their
+    # bounds) or "current" (the model's present value); a guess outside the open bounds is replaced by the default from the bounds
+    if len(own) == len(rec["lo"]) and not f32:
+        def dflt_from(lo_, hi_):
+            if lo_ > -np.inf and hi_ < np.inf:
+                return (lo_ + hi_) / 2.0
+            if lo_ > -np.inf:
+                return lo_ + 1.0
+            if hi_ < np.inf:
+                return hi_ - 1.0
+            return 0.0
+        ig = case["kwargs"].get("init_guess", "default")
+        igd = dict(ig) if isinstance(ig, dict) else {"default": ig}
+        mode = igd.pop("default", "default")
+        pre = impl["pre_copy"]
+        # the guesses refer to the model AFTER the fixed values were applied (fitted parameters are not touched by that, except the
+        # variance of models with a var_factor): take the present values from the state before the call where that is unambiguous
+        cur_vals = dict(len_scale=impl["before"]["len"], nugget=impl["before"]["nug"])
+        for i_, o_ in enumerate(m.opt_arg):
+            cur_vals[o_] = impl["before"]["opt"][i_]
+        sel_fixed_other = any(not isinstance(v_, bool) for n_, v_ in case["kwargs"]["select"])
+        if not (sel_fixed_other and has_vf(m, case)) and not constrained:
+            cur_vals["var"] = impl["before"]["var"]
+        anis_before = impl["before"]["anis"]
+        for i_, nme in enumerate(own):
+            if nme == "anis":
+                j_ = i_ - len(fitted)
+                if "anis" in igd:
+                    a_ = np.atleast_1d(np.asarray(igd["anis"], float))[: m.dim - 1]
+                    a_ = np.concatenate([np.ones(m.dim - 1 - a_.size), a_])
+                    g_ = float(a_[j_])
+                elif mode == "default":
+                    d_ = dflt_from(b[3][0], b[3][1])
+                    g_ = float(([1.0] * (m.dim - 2) + [d_])[j_])
+                else:
+                    g_ = float(anis_before[j_])
+            elif nme in igd:
+                g_ = float(igd[nme])
+            elif mode == "default":
+                g_ = (rec["mean_x"] * float(m.rescale) if nme == "len_scale" else rec["mean_y"] if nme in ("var", "nugget")
+                      else dflt_from(b[bidx[nme]][0], b[bidx[nme]][1]))
+            elif nme in cur_vals:
+                g_ = cur_vals[nme]
+            else:
+                continue
+            lo_, hi_ = rec["lo"][i_], rec["hi"][i_]
+            exp_p0 = g_ if lo_ < g_ < hi_ else dflt_from(lo_, hi_)
+            if ulps(rec["p0"][i_], exp_p0) > 2:
+                out.append(("cf-p0:%s" % ("anis" if nme == "anis" else nme if nme in ("var", "len_scale", "nugget") else "opt"),
+                            "start value of %s handed to curve_fit is %r; init_guess=%r asks for %r (bounds [%r, %r])"
+                            % (nme, rec["p0"][i_], ig, exp_p0, lo_, hi_)))
+    # the values the curve returned to the optimiser are the variogram(s) of the model as it was after that evaluation:
+    # isotropic / Yadrenko variogram at the bin centres, or, for directional data, the variograms along the main axes with the
+    # model's PRESENT anisotropy ratios (whether they are fitted or not)
+    if rec["curves"] and rec["states"]:
+        xs, _ = case_xy(case)
+        if case.get("xdtype") in ("float32", "f32-noncontig"):
+            xs = xs.astype(np.float32).astype(float)
+        isdir_ = (m.dim > 1) and (xs.size * m.dim == np.asarray(rec["ydata"]).size)
+        scratch = copy.deepcopy(impl["pre_copy"])
+        nst = min(len(rec["states"]), len(rec["curves"]))
+        for kk in sorted({0, nst // 2, nst - 1}):
+            cv = rec["curves"][kk]
+            if not np.all(np.isfinite(cv)):
+                continue            # punishment (np.inf) or an evaluation at a bound
+            st = rec["states"][kk]
+            no = len(m.opt_arg)
+            object.__setattr__(scratch, "_var", st[0])
+            object.__setattr__(scratch, "_len_scale", st[1])
+            object.__setattr__(scratch, "_nugget", st[2])
+            for o_, v_ in zip(m.opt_arg, st[3:3 + no]):
+                object.__setattr__(scratch, o_, v_)
+            object.__setattr__(scratch, "_anis", np.array(st[3 + no:], dtype=np.double))
+            if isdir_:
+                ref = np.concatenate([scratch.vario_axis(xs, axis=i_) for i_ in range(m.dim)])
+            else:
+                ref = scratch.variogram(np.asarray(rec["xdata"], float))
+            tol_c = (1e-4 if f32 else 1e-12)
+            if ref.shape != cv.shape or not np.all(np.abs(ref - cv) <= tol_c * np.maximum(np.abs(ref), 1e-300)):
+                out.append(("curve", "evaluation %d at %r: the curve returned to the optimiser is not the %s variogram of the model in its "
+                            "state after that evaluation (anis %r): returned %s..., model %s..."
+                            % (kk, rec["evs"][kk], "directional (main axes)" if isdir_ else "isotropic", st[3 + no:], str(cv[:3]), str(ref[:3]))))
+                break
     user = dict(ftol=1e-15, xtol=1e-15, gtol=1e-15) if case["kwargs"].get("tight") else {}
     user.update(case["kwargs"].get("cfkw") or {})
     exp_keys = {"f", "bounds", "p0", "xdata", "ydata", "loss", "max_nfev", "method"} | set(user) | ({"sigma", "absolute_sigma"} if sigma is not None else set())
@@ -1102,6 +1191,45 @@ def recovery_cases(rng, tier):
             case.update(start=start, x=[C.fhex(v) for v in x], y=[C.fhex(v) for v in y], yshape=[30], kwargs=kw,
                         fit_shape=False, also=(["hurst"] if fit_hurst else []))
             cases.append(case)
+    # directional data whose anisotropy is NOT fitted (anis=False with the model at the true ratios / anis=<the true ratios> on a
+    # model with other ratios), ratios != 1: the curve has to be the directional one for the model's present ratios
+    for cls in ("Exponential", "Gaussian", "Spherical", "Matern"):
+        for mode in ("deselected", "fixed"):
+            dim = int(rng.integers(2, 4))
+            L = float(rng.uniform(3.0, 9.0))
+            truth = dict(var=float(rng.uniform(0.5, 2.5)), len_scale=L, nugget=float(rng.uniform(0.1, 0.5)),
+                         anis=[float(a) for a in rng.uniform(0.35, 0.8, dim - 1)])
+            if cls == "Matern":
+                truth["nu"] = 1.2
+            start = {k: (float(v * rng.uniform(0.8, 1.25)) if k not in ("anis", "nu") else v) for k, v in truth.items()}
+            kw = dict(select=([["nu", False]] if cls == "Matern" else []), init_guess="current", loss=str(rng.choice(["soft_l1", "linear"])),
+                      method="trf", tight=True)
+            if mode == "deselected":
+                kw["anis"] = False
+            else:
+                start["anis"] = [float(a) for a in rng.uniform(0.9, 1.3, dim - 1)]
+                kw["anis"] = list(truth["anis"]) if dim > 2 or rng.random() < 0.5 else float(truth["anis"][0])
+            c = basic_case(rng, cls, dim, truth, start, {}, kw, kind="dir", nb=30, noise=0.0)
+            c["fit_shape"] = False
+            c["cell"] = "recovery:dir-anis-%s:%s" % (mode, cls)
+            cases.append(c)
+    # finite-range models started far below the smallest bin (the curve does not depend on len_scale there): the start values
+    # given in a DICT init_guess have to reach the optimiser
+    for cls in ("Spherical", "Circular", "Linear", "Cubic"):
+        dim = int(rng.integers(1, 3)) if cls == "Circular" else int(rng.integers(1, 4))
+        L = float(rng.uniform(7.0, 11.0))
+        truth = dict(var=float(rng.uniform(0.5, 2.5)), len_scale=L, nugget=float(rng.uniform(0.1, 0.5)))
+        start = dict(var=float(truth["var"] * rng.uniform(0.4, 0.6)), len_scale=1.0, nugget=float(truth["nugget"] * rng.uniform(1.5, 2.0)))
+        ig = {k: float(truth[k] * rng.uniform(0.9, 1.1)) for k in ("var", "len_scale", "nugget")}
+        ig["default"] = str(rng.choice(["default", "current"]))
+        kw = dict(select=[], init_guess=ig, loss="soft_l1", method="trf", tight=True)
+        c = basic_case(rng, cls, dim, truth, start, {}, kw, kind="iso", nb=30, noise=0.0)
+        x = np.linspace(0.22 * L, 2.5 * L, 30)
+        c["x"] = [C.fhex(v) for v in x]
+        c["y"] = [C.fhex(v) for v in build_model(c, "truth").variogram(x)]
+        c["fit_shape"] = False
+        c["cell"] = "recovery:finite-range-dict-guess:%s" % cls
+        cases.append(c)
     return cases
 
 
